@@ -98,9 +98,6 @@ OpenSet ==
           [] Ctx = "mm"  -> (CondOpens \X RFlds)
           [] OTHER       -> {})
 
-AppendCur(x) ==
-  g' = [g EXCEPT !.st[Len(g.st)] = IF Top.el THEN [Top EXCEPT !.b = Append(@, x)] ELSE [Top EXCEPT !.a = Append(@, x)]]
-
 AddLeaf == /\ g.ph \in {"base", "ovr"} /\ g.sz < MaxNodes
            /\ \E x \in LeafSet :
                 g' = [g EXCEPT !.st[Len(g.st)] = IF Top.el THEN [Top EXCEPT !.b = Append(@, x)]
